@@ -1,24 +1,13 @@
-"""Per-property configuration of bin/check."""
+"""Per-property configuration of bin/check: one JSON file per claimed property in bin/propcfg/.
 
-CRYPTO = "secp256k1 / SHA-256 / HMAC are not modelled: signature validity and hash values are inputs computed by the real libraries in the harness"
+Keys: lean_module, level, technique, claim (MANIFEST level_claimed.text), note (MANIFEST level_note),
+trusted_base [..], assumptions [..]; optional: harness (bool, default true), cfg_flag (e.g. "vls_verif"),
+bin (harness binary name), timeout {"quick": s, "thorough": s}, unclaimed ("reason": property listed under not_applicable).
+"""
+import json, os, glob
 
 HOOK_COMMITS = []
 
-TABLE = {
-    "C12": {
-        "lean_module": "VlsModel.Props.C12",
-        "level": "proof",
-        "technique": "Lean 4 proof: bucket vector = per-epoch abstraction of the approved log (invariant by induction over request lists incl. restarts) + differential correspondence against VelocityControl and a real Node",
-        "claim": "Theorems C12_main / C12_main_any_window / C12_spec / C12_restart / C12_no_panic (Lean 4 kernel-checked, no bound on history length, timestamps, amounts or number of restarts) prove the sliding-window bound for the executable model of VelocityControl::insert with its exact saturating arithmetic; the model is tied to the code by regenerated spec_to_triple constants and by running model and implementation (unit level and a real Node with ManualClock, persister and restore_node) on the same generated request histories with a brute-force window oracle as monitor.",
-        "note": "Trusted: Lean kernel (axioms propext, Classical.choice, Quot.sound only), the translator for the constants, the correspondence harness; the hand-written model of velocity.rs is validated by correspondence, not derived from the source. Unlimited controls and changed policy specs are outside the property.",
-        "trusted_base": [
-            "modelled by hand (not verified from source): VelocityControl::{new*, spec_matches, update_spec, insert, velocity, clear} "
-            "and the persist/restore path of NodeState.velocity_control (NodeVC); spec_to_triple constants are regenerated from source",
-        ],
-        "assumptions": [
-            "timestamps handed to insert are non-decreasing (the property's quantifier); the clock source itself is not modelled",
-            "limit < u64::MAX (the Unlimited setting is the documented opt-out)",
-            "a restart happens under an unchanged policy spec; a changed spec resets the control by design (update_spec)",
-        ],
-    },
-}
+TABLE = {}
+for _p in sorted(glob.glob(os.path.join(os.path.dirname(os.path.abspath(__file__)), "propcfg", "C*.json"))):
+    TABLE[os.path.basename(_p)[:-5]] = json.load(open(_p))
